@@ -4,6 +4,8 @@ from . import core
 ASSUME = [
     "POSIX path semantics (no volume names); the recording afero.Fs underneath ChrootFs sees every call made on behalf of a specification",
     "segment alphabet {'', '.', '..', 'a', 'b.c', 'd e'}; names up to the stated length, 4 roots of depth 0..3, each name spelled relative and absolute",
+    "module driver: the module named on the command line (loader.LoadSyslModule with a root), spelled like the imports and ending in `mod`, `mod.sysl` or `mod.v2`; "
+    "the recording file system sits below the loader, so calls made before the loader confines itself to the root are seen too",
     "import driver: one importing file in <root>/p, names containing spaces are not valid import paths and are skipped there; "
     "an import whose resolved path has the shape host.tld/owner/repo/... is a remote import for the reader and is not judged",
 ]
@@ -36,6 +38,7 @@ def check_c18(ctx):
     by_t = {e["t"]: e for e in events}
     nops = sum(len(e.get("res", [])) for e in events if e["e"] == "op")
     nimp = sum(1 for e in events if e["e"] == "imp")
+    nmod = sum(1 for e in events if e["e"] == "mod")
     for kind, p in prints:
         if kind != "VERDICT":
             continue
@@ -47,7 +50,7 @@ def check_c18(ctx):
         core.add_violation(ctx, sig, what, {"family": "chroot", "scenario": {"root": e["root"], "segs": e["segs"]},
                                             "event": e})
     cov = {"states": mc.distinct, "transitions": mc.generated,
-           "traces_validated_against_impl": len(events), "wrapper_calls_judged": nops, "import_compiles_judged": nimp,
+           "traces_validated_against_impl": len(events), "wrapper_calls_judged": nops, "import_compiles_judged": nimp, "module_arguments_judged": nmod,
            "names_enumerated": len(scn), "exhaustive": True, "import_probes_skipped_as_remote_paths": nremote,
            "samples": [events[0], events[len(events) // 2]] if events else []}
     return core.finish(ctx, "model_checking", cov, ASSUME)
